@@ -1,8 +1,5 @@
 //@@ include contracts/inc_shard_header.rs
 //@@ include contracts/inc_value_units.rs
-use std::borrow::Cow;
-//@@ include prelude/lossy.rs
-//@@ include prelude/lossy_parse.rs
 verus! {
 spec fn hash_at(s: DatabaseShard, key: Vec<u8>) -> Option<Map<Vec<u8>, Vec<u8>>> {
     if s.data@.contains_key(key) { match s.data@[key].value { Value::Hash(h) => Some(h@), _ => None } } else { None }
@@ -110,7 +107,7 @@ impl StorageEngine {
 //@@ unit hincrby fn src/storage/engine.rs StorageEngine::hincrby
 //@@   params drop "db: DatabaseIndex" add "shard_guard: &mut DatabaseShard"
 //@@   rewrite R2
-//@@   rewrite RCALL parse current_str verif_cow_parse_i64_ref
+//@@   rewrite RCALL parse current_str verif_cow_parse
 //@@   rewrite RCALL to_string new_val verif_i64_to_string
 //@@   rewrite RCALL to_string increment verif_i64_to_string
     fn hincrby(&self, shard_guard: &mut DatabaseShard, key: Key, field: Vec<u8>, increment: i64) -> (r: Result<i64>)
@@ -136,11 +133,5 @@ impl StorageEngine {
 //@@ body
 //@@ end
 }
-/// `current_str.parse::<i64>()` where current_str: Cow<str> (by value at the RCALL site; the Cow is not used afterwards)
-#[verifier::external_body]
-pub fn verif_cow_parse_i64_ref(c: Cow<'_, str>) -> (r: std::result::Result<i64, core::num::ParseIntError>)
-    ensures match spec_parse_i64(cow_src(c)) { Some(n) => r == std::result::Result::<i64, core::num::ParseIntError>::Ok(n), None => r is Err },
-{ c.parse::<i64>() }
-
 } // verus!
 fn main() {}
